@@ -189,7 +189,9 @@ def run(ctx):
                     for s in upd:
                         for ph, arg in zip(s.stmt.placeholders, s.args or []):
                             if ph[0] == "set" and ph[1] == col_want:
-                                ok = unparse(arg) == f"{val.id} - 1"
+                                # the parameter, or the attribute it was just stored into (the same number on every path:
+                                # when the parameter is None the attribute keeps the live value, which is what is stored then)
+                                ok = unparse(arg) == f"{val.id} - 1" or (unparse(arg) == f"{unparse(n.targets[0])} - 1" and n.lineno < s.call.lineno)
                     ctx.instance("C13.counter-encoding", cons, ok,
                                  f"{name}() sets {side} from `{val.id}` but does not store `{val.id} - 1` into {col_want}", loc(n))
                 else:
